@@ -563,7 +563,7 @@ REACH_OPS = ["C13.contains-agrees", "C13.get-agrees(visibility)", "C13.cleanups-
 def jobs(tier, seed):
     js = []
     n = 3 if tier == "quick" else 4
-    if tier == "quick" or True:
+    if tier == "quick":
         for a in range(len(OPS)):
             js.append(Job("ops.n%d.%02d" % (n, a), "props.c13:h_ctx_ops", {"n": n, "prefix": [a]},
                           reach=REACH_OPS[:2], min_paths=50, cost=100, validate=40, max_paths=400000, closure=False))
@@ -571,7 +571,7 @@ def jobs(tier, seed):
         for a in range(len(OPS)):
             for b in range(len(OPS)):
                 js.append(Job("ops.n%d.%02d.%02d" % (n, a, b), "props.c13:h_ctx_ops", {"n": n, "prefix": [a, b]},
-                              reach=REACH_OPS[:2], min_paths=50, cost=100, validate=30, max_paths=400000, closure=False))
+                              reach=[], min_paths=5, cost=100, validate=4, max_paths=400000, closure=False))
     runs = {
         "sc-layer": ([F([S(2), S(1)])], {"out_dom": {"*": [5, 6]}}),
         "feature-layer": ([F([S(1), R([S(1)])])], {"out_dom": {"*": [6, 6]}, "cleanup_layer": "feature"}),
